@@ -50,7 +50,8 @@ MECH = {
     "env": "C30/envvar-shell-expansion",
     "stderr": "C30/stderr-merged-into-stdout-file",
     "boolarr": "C30/boolean-array-items-emitted",
-    "itemsep": "C30/item-bindings-dropped-with-itemseparator",
+    "itemsep": "C30/item-bindings-joined-with-itemseparator",
+    "boolprefix": "C30/array-prefix-dropped-when-no-item-emits",
 }
 
 
@@ -81,8 +82,9 @@ def plan(tier):
 class Norm:
     def __init__(self, scratch):
         s = re.escape(os.path.realpath(scratch))
-        self.job = re.compile(s + r"/streamflow/[0-9a-f\-]{36}")  # StreamFlow job directories ($HOME, $TMPDIR)
-        self.ref_home = re.compile(s + r"/[a-z0-9_]{8}(?![\w/.\-])")  # cwltool's temporary outdir ($HOME)
+        # StreamFlow job directory / cwltool temporary outdir as a value of its own ($HOME, $TMPDIR), not as a parent
+        self.job = re.compile(s + r"/streamflow/[0-9a-f]{8}-[0-9a-f]{4}-[0-9a-f]{4}-[0-9a-f]{4}-[0-9a-f]{12}(?!/)")
+        self.ref_home = re.compile(s + r"/[a-z0-9_]{8}(?![a-z0-9_/])")
         self.dir = re.compile(s + r"/(?:[^/\s'\"]+/)*")
 
     def __call__(self, a):
@@ -146,6 +148,66 @@ def composite_kind(schema) -> str | None:
     return None
 
 
+def _strs(v):
+    if isinstance(v, list):
+        for x in v:
+            yield from _strs(x)
+    elif isinstance(v, dict):
+        if v.get("class") == "File":
+            yield "@DIR@/" + os.path.basename(v["path"])
+        else:
+            for x in v.values():
+                yield from _strs(x)
+    elif isinstance(v, bool) or v is None:
+        return
+    else:
+        yield str(v)
+
+
+def composite_candidates(tool, job) -> set:
+    """Token texts that can stem from array / record bindings whose items have no binding of their own
+    (items, prefixes, prefix+item, itemSeparator joins): the tokens the listed mechanism leaves unquoted."""
+    cands = set()
+
+    def array(schema_type, binding, value):
+        items = list(_strs(value))
+        pfx = (binding or {}).get("prefix")
+        sep = (binding or {}).get("itemSeparator")
+        cands.update(items)
+        if pfx is not None:
+            cands.add(pfx)
+            cands.update(pfx + i for i in items)
+        if sep is not None and isinstance(value, list):
+            j = sep.join(items)
+            cands.add(j)
+            if pfx is not None:
+                cands.add(pfx + j)
+        if isinstance(schema_type, dict) and isinstance(schema_type.get("items"), dict) and isinstance(value, list):
+            for sub in value:
+                array(schema_type["items"], schema_type["items"].get("inputBinding"), sub)
+
+    for name, schema in tool["inputs"].items():
+        t, b, v = schema.get("type"), schema.get("inputBinding"), job.get(name)
+        if v is None:
+            continue
+        if isinstance(t, str) and t.endswith("[]") and b is not None:
+            array(t, b, v)
+        elif isinstance(t, dict) and t.get("type") == "array" and (b is not None or "inputBinding" in json.dumps(t)):
+            if "inputBinding" in t and isinstance(t.get("items"), str):
+                if b and "prefix" in b:
+                    cands.add(b["prefix"])  # items are quoted by their own binding, the outer prefix is not
+            else:
+                array(t, b, v)
+        elif isinstance(t, dict) and t.get("type") == "record":
+            if b and "prefix" in b:
+                cands.add(b["prefix"])
+            for fn, f in t["fields"].items():
+                if isinstance(f.get("type"), str) and f["type"].endswith("[]") and "inputBinding" in f:
+                    array(f["type"], f["inputBinding"], v.get(fn))
+    cands.discard("")
+    return cands
+
+
 def applicable(case, ref) -> list[str]:
     """Mechanisms whose syntactic trigger is present in the tool."""
     tool, job = case["tool"], case["job"]
@@ -163,11 +225,17 @@ def applicable(case, ref) -> list[str]:
         if kind == "array" and (t == "boolean[]" or (isinstance(t, dict) and t.get("items") == "boolean" and "inputBinding" not in t)) \
                 and "itemSeparator" not in schema.get("inputBinding", {}):
             m.append("boolarr")
+        elif kind == "array" and isinstance(t, dict) and t.get("items") == "boolean" and "inputBinding" in t \
+                and "prefix" in schema.get("inputBinding", {}) and "itemSeparator" not in schema["inputBinding"] \
+                and not any(job[name]):
+            m.append("boolprefix")
         elif kind == "array" and isinstance(t, dict) and "inputBinding" in t and "itemSeparator" in schema.get("inputBinding", {}) \
                 and isinstance(t.get("items"), str):
             m.append("itemsep")
         elif kind in ("array", "record"):
             m.append("composite")
+    elif "ShellCommandRequirement" not in tool["requirements"] and composite_candidates(tool, job) & set(ref.get("argv") or []):
+        m.append("composite")
     return m
 
 
@@ -190,8 +258,14 @@ def predict(sh: Shard, case, ref, mechs: tuple) -> dict:
                 per_item += [ib["prefix"] + str(x)]
             else:
                 per_item += [str(x)]
-        if per_item and argv[-len(per_item):] == per_item:
-            argv = argv[: -len(per_item)]
+        sep = tool["inputs"][name]["inputBinding"]["itemSeparator"]
+        joined = sep.join(str(x) for x in job[name])
+        if per_item and argv[-len(per_item):] == per_item and argv[-len(per_item) - 1: -len(per_item)] == [joined]:
+            argv = argv[: -len(per_item) - 1] + [sep.join(per_item)]
+    if "boolprefix" in mechs:
+        name = bound_inputs(tool)[0]
+        if argv == [tool["inputs"][name]["inputBinding"]["prefix"]]:
+            argv = []
     if "stderr" in mechs and isinstance(ref.get("stdout_content"), str):
         pred["stdout_content"] = ref["stdout_content"] + "ERR-MARK\n"
     if "env" in mechs or "composite" in mechs:
@@ -200,7 +274,8 @@ def predict(sh: Shard, case, ref, mechs: tuple) -> dict:
         exports = "".join((f'export {k}="{v}" && ' if "env" in mechs else f"export {k}={shlex.quote(v)} && ") for k, v in items)
         fake_job = os.path.join(os.path.realpath(sh.scratch), "streamflow", "00000000-0000-0000-0000-000000000000")
         exports += f'export HOME="{fake_job}" && export TMPDIR="{fake_job}" && '
-        toks = " ".join(a if "composite" in mechs else shlex.quote(a) for a in argv)
+        raw = set(argv) if is_minimal(tool) else composite_candidates(tool, job)
+        toks = " ".join(a if ("composite" in mechs and a in raw) else shlex.quote(a) for a in argv)
         dumper = os.path.join(sh.scratch, "vf_dumper.py")
         if not os.path.exists(dumper):
             with open(dumper, "w") as f:
@@ -297,7 +372,8 @@ def shrink(sh: Shard, run: Runner, case, ref, sf, max_runs, deadline):
                 cur, cur_ref, cur_sf = cand, r2, s2
                 progress = True
                 break
-    return cur, cur_ref, cur_sf, runs
+    exhausted = not progress  # a full pass over the candidates found nothing left to remove
+    return cur, cur_ref, cur_sf, (runs, exhausted)
 
 
 def judge(sh: Shard, run: Runner, case, d=None, ref_result=None, allow_shrink=True, deadline=None):
@@ -320,8 +396,9 @@ def judge(sh: Shard, run: Runner, case, d=None, ref_result=None, allow_shrink=Tr
     sh.count("disagreements_checked")
     mechs = explain(sh, case, ref, sf)
     witness_case, w_ref, w_sf = case, ref, sf
+    exhausted = True
     if mechs is None and allow_shrink:
-        small, s_ref, s_sf, runs = shrink(sh, run, case, ref, sf, sh.pick(14, 40), deadline or (time.time() + 300))
+        small, s_ref, s_sf, (runs, exhausted) = shrink(sh, run, case, ref, sf, sh.pick(14, 40), deadline or (time.time() + 300))
         if small is not case:
             m2 = explain(sh, small, s_ref, s_sf)
             witness_case, w_ref, w_sf = small, s_ref, s_sf
@@ -346,7 +423,12 @@ def judge(sh: Shard, run: Runner, case, d=None, ref_result=None, allow_shrink=Tr
            "streamflow_log": [l[-500:] for l in log if "EXECUTING command" in l or "xception" in l][-3:],
            "original_tool_digest": key}
     what = describe(w_ref, w_sf)
-    if mechs is None:
+    if mechs is None and case.get("class") == "W" and allow_shrink and not exhausted:
+        # an unrestricted tool may combine listed mechanisms; without a finished shrink it cannot be told
+        # whether this divergence is one of them: neither held nor a new violation
+        sh.count("wild_divergence_not_shrunk_in_budget")
+        sh.inconclusive_because("class W divergence could not be shrunk within the budget: " + what[:300])
+    elif mechs is None:
         sh.violation(None, what, wit)
     else:
         for m in mechs:
